@@ -151,6 +151,35 @@ def forward_case(mm, dd):
   return _diff(s0, s1), _diff(f1, f2)
 
 
+CVEL_XML = """<mujoco><option gravity="0 0 -9.81"/><worldbody>
+<body name="a" pos="0 0 1"><joint type="hinge" axis="0 1 0"/><geom size="0.05" pos="0.3 0 0"/>
+ <body name="b" pos="0.3 0 0"><joint type="hinge" axis="0 1 0"/><geom size="0.05" pos="0.3 0 0"/></body></body>
+</worldbody><equality><connect body1="b" body2="world" anchor="0.3 0 0"/></equality></mujoco>"""
+
+
+def cvel_case():
+  """Directed regression (finding C37:forward:not-idempotent:equality-jdot-stale-cvel, repaired in /repo):
+  forward() twice on a FRESH Data with a connect constraint and non-zero velocity."""
+  import mujoco
+
+  import mujoco_warp as mjw
+
+  m = mujoco.MjModel.from_xml_string(CVEL_XML)
+  mm = mjw.put_model(m)
+  dd = mjw.make_data(m)
+  dd.qpos.assign(np.array([[0.3, -0.2]], dtype=np.float32))
+  dd.qvel.assign(np.array([[2.0, -1.0]], dtype=np.float32))
+  mjw.forward(mm, dd)
+  q1 = dd.qacc.numpy()[0].copy()
+  mjw.forward(mm, dd)
+  q2 = dd.qacc.numpy()[0].copy()
+  d = mujoco.MjData(m)
+  d.qpos[:], d.qvel[:] = [0.3, -0.2], [2.0, -1.0]
+  mujoco.mj_forward(m, d)
+  return {"xml": CVEL_XML, "qpos0": [0.3, -0.2], "qvel0": [2.0, -1.0], "qacc_forward1": q1.tolist(), "qacc_forward2": q2.tolist(),
+          "qacc_mujoco": d.qacc.tolist(), "differs": not np.array_equal(q1, q2)}  # fmt: skip
+
+
 def history_case(delay, nsample, nstep=3):
   """Directed: sensor with delay (history buffer).  Returns dict of observations."""
   import mujoco
@@ -249,6 +278,14 @@ def run(res):
     res.violation("C37:fused-factor-solve-differs-from-split", f"factor_solve_i vs factor_m;solve_m relative difference {fused_worst:.3g}", fused_bad[:2])
   res.extra["fused_vs_split_worst_rel_diff"] = fused_worst
 
+  # directed regression: connect constraint, forward() twice on a fresh Data (repaired finding, same key)
+  c = cvel_case()
+  res.count()
+  res.nontrivial(("cvel-directed",))
+  res.sample({"kind": "directed-cvel", **{k2: c[k2] for k2 in ("qacc_forward1", "qacc_forward2", "qacc_mujoco", "differs")}})
+  if c["differs"]:
+    found = True
+    res.violation("C37:forward:not-idempotent:equality-jdot-stale-cvel", "forward() twice on a fresh Data with a connect constraint gives different qacc: make_constraint reads d.cvel/d.cdof_dot of the previous velocity stage", c)
   # directed: delayed / interval sensors (history buffers)
   for delay, nsample in ((0.004, 2), (0.01, 4)) if quick else ((0.004, 2), (0.01, 4), (0.002, 1), (0.02, 6)):
     h = history_case(delay, nsample)
